@@ -408,12 +408,12 @@ func QueryPoints() []geom.Point {
 
 var qpoints = QueryPoints()
 
-// SetQuickPoints restricts the query points to a 6x6 sub-grid that still has
+// SetQuickPoints restricts the query points to a 7x7 sub-grid that still has
 // points inside, outside, on box borders and between objects.
 func SetQuickPoints() {
 	qpoints = nil
-	for _, x := range []float64{-1, 0, 0.5, 1, 2.5, 4} {
-		for _, y := range []float64{-1, 0, 0.5, 1, 2.5, 4} {
+	for _, x := range []float64{-1, 0, 0.5, 1.5, 2, 3, 4} {
+		for _, y := range []float64{-1, 0, 0.5, 1.5, 2, 3, 4} {
 			qpoints = append(qpoints, geom.Point{X: x, Y: y})
 		}
 	}
